@@ -183,3 +183,55 @@ func vp_C18_allowed_total() {
 	_ = Allowed(ev, auth, vpUserIDForSender)
 	vpReach("done", true)
 }
+
+// vp:check C18 both K=24 timeout=900
+// vp:check C02 both K=24 timeout=900
+// vp_C18_signature_blocks: VerifyJSON, ListKeyIDs and SignJSON on objects whose "signatures" member (and its entries)
+// have every JSON kind - absent, null, a string, a number, an array, an empty object, an entity mapped to null / a string /
+// an object whose key ID maps to null / a number / a non-base64 string. None may panic: verification reports an error,
+// signing either reports an error or produces an object that verifies.
+func vp_C18_signature_blocks() {
+	pubB, privB := vpKey("signer")
+	entity := vpChoice("entity_in_block", "x", "other")
+	var sigs interface{}
+	shape := vpChoice("signatures", "absent", "null", "string", "number", "array", "empty", "entity-null", "entity-string", "entity-array", "key-null", "key-number", "key-not-base64", "key-empty")
+	switch shape {
+	case "null":
+		sigs = nil
+	case "string":
+		sigs = "sig"
+	case "number":
+		sigs = int64(7)
+	case "array":
+		sigs = vpJArr("a")
+	case "empty":
+		sigs = vpJObj()
+	case "entity-null":
+		sigs = vpJObj(entity, nil)
+	case "entity-string":
+		sigs = vpJObj(entity, "s")
+	case "entity-array":
+		sigs = vpJObj(entity, vpJArr())
+	case "key-null":
+		sigs = vpJObj(entity, vpJObj("ed25519:1", nil))
+	case "key-number":
+		sigs = vpJObj(entity, vpJObj("ed25519:1", int64(1)))
+	case "key-not-base64":
+		sigs = vpJObj(entity, vpJObj("ed25519:1", "!!!"))
+	case "key-empty":
+		sigs = vpJObj(entity, vpJObj("ed25519:1", ""))
+	}
+	doc := vpJObj("a", int64(1))
+	if shape != "absent" {
+		doc = vpJObj("a", int64(1), "signatures", sigs)
+	}
+	err := VerifyJSON("x", "ed25519:1", ed25519.PublicKey(pubB), doc)
+	vpAssert("malformed-signature-block-does-not-verify", err != nil)
+	_, _ = ListKeyIDs("x", doc)
+	signed, serr := SignJSON("x", "ed25519:1", ed25519.PrivateKey(privB), doc)
+	if serr == nil {
+		vpAssert("signed-object-verifies", VerifyJSON("x", "ed25519:1", ed25519.PublicKey(pubB), signed) == nil)
+	}
+	vpReach("signing-refused", serr != nil)
+	vpReach("signed", serr == nil)
+}
